@@ -98,6 +98,7 @@ type Term struct {
 	C    uint64
 	Name string
 	ID   int
+	Dom  []uint64 // for OVar: finite set of possible values (nil = unconstrained); per path
 }
 
 type TermStore struct {
@@ -266,6 +267,22 @@ func (ts *TermStore) Eq(a, b *Term) *Term {
 		}
 		if b.IsFalse() {
 			return ts.Not(a)
+		}
+	}
+	if a.Op == OVar && a.Dom != nil && b.IsConst() {
+		if !inDom(a.Dom, b.C) {
+			return ts.tFals
+		}
+		if len(a.Dom) == 1 {
+			return ts.tTrue
+		}
+	}
+	if b.Op == OVar && b.Dom != nil && a.IsConst() {
+		if !inDom(b.Dom, a.C) {
+			return ts.tFals
+		}
+		if len(b.Dom) == 1 {
+			return ts.tTrue
 		}
 	}
 	if a.ID > b.ID {
@@ -471,6 +488,16 @@ func (ts *TermStore) Cmp(op Op, a, b *Term) *Term {
 	}
 	if a == b {
 		return ts.Bool(op == OULe || op == OSLe)
+	}
+	if a.Op == OVar && a.Dom != nil && b.IsConst() {
+		if r, ok := domCmp(op, a.Dom, b.C, w, false); ok {
+			return ts.Bool(r)
+		}
+	}
+	if b.Op == OVar && b.Dom != nil && a.IsConst() {
+		if r, ok := domCmp(op, b.Dom, a.C, w, true); ok {
+			return ts.Bool(r)
+		}
 	}
 	// comparisons of zero-extended bytes against constants: push down
 	if a.Op == OZExt && b.IsConst() {
@@ -803,4 +830,43 @@ func (t *Term) String() string {
 		}
 	}
 	return "(" + n + " " + strings.Join(s, " ") + ")"
+}
+
+func inDom(d []uint64, v uint64) bool {
+	for _, x := range d {
+		if x == v {
+			return true
+		}
+	}
+	return false
+}
+
+// domCmp decides a comparison of a finite-domain variable against a constant when all
+// domain values agree. swapped: the constant is the left operand.
+func domCmp(op Op, d []uint64, c uint64, w int, swapped bool) (bool, bool) {
+	first := true
+	var res bool
+	for _, v := range d {
+		x, y := v, c
+		if swapped {
+			x, y = c, v
+		}
+		var r bool
+		switch op {
+		case OULt:
+			r = x < y
+		case OULe:
+			r = x <= y
+		case OSLt:
+			r = sext(x, w) < sext(y, w)
+		case OSLe:
+			r = sext(x, w) <= sext(y, w)
+		}
+		if first {
+			res, first = r, false
+		} else if r != res {
+			return false, false
+		}
+	}
+	return res, !first
 }
